@@ -118,9 +118,10 @@ PROBES = {
 PROBE_ORDER = ["zip-link-through-later-dirlink", "zip-link-in-non-utf8flag-dir", "zip-link-to-archive-root"]
 
 
-def job_for(tree, members, actions, handlers=ZIP_FIRST, extra_root=None, cwd_files=None):
+def job_for(tree, members, actions, handlers=ZIP_FIRST, extra_root=None, cwd_files=None, container=None, infolist=True):
     return {"op": "c16", "tree": G.extracted_of(tree), "members": members, "actions": actions,
-            "config": config_for(handlers), "extra_root": extra_root or [], "cwd_files": cwd_files or []}
+            "config": config_for(handlers), "extra_root": extra_root or [], "cwd_files": cwd_files or [],
+            "container": container, "infolist": infolist}
 
 
 def obs_equal(a, b):
@@ -182,8 +183,9 @@ def part_k(chk, tier, variant=None):
     jobs = []
     meta = []
     zl = len(ZSEL)
+    conts = G.containers(rng, ntrees)
     for i in range(ntrees):
-        tree = G.gen_tree(rng, feats_cycle[i % len(feats_cycle)])
+        tree = G.gen_tree(rng, feats_cycle[i % len(feats_cycle)] + (("rootmeta",) if i % 2 else ()))
         order = ["tree", "shuffle", "links_first", "dirs_last"][i % 4]
         members = G.members_of(tree, rng, order)
         sels = G.tree_selectors(tree, rng)
@@ -203,7 +205,8 @@ def part_k(chk, tier, variant=None):
                 {"do": "vfs_real", "calls": [["obs", TSEL + ("/" + p if p else "")] for p in sels]}]
         for o in orders:
             acts.append({"do": "vfs", "calls": [["obs", ZSEL + ("/" + p if p else "")] for p in o]})
-        jobs.append(job_for(tree, members, acts, extra_root=[{"path": "outside.txt", "data": "OUTSIDE\n"}]))
+        jobs.append(job_for(tree, members, acts, extra_root=[{"path": "outside.txt", "data": "OUTSIDE\n"}],
+                            container=conts[i]))
         meta.append(("tree", tree, members, sels, calls, orders))
     for members in G.weird_archives(rng, nweird):
         names = sorted({c for m in members for c in m["raw"].split("/")} | {"a", "d", "l"})
@@ -267,8 +270,17 @@ def part_k(chk, tier, variant=None):
                                "sequence": orders[oi][:pos + 1], "orders_tried": len(orders), "orders_failing": len(hits),
                                "tree": tree, "members": members, "pruned_links": out["pruned"]},
                               tag="zip-vfs-order-dependent" if order_dependent else classify_vfs_diff(tree, p, variant))
-    pre_txt = "\n".join(pre)
     imports = "Lib.Str Lib.ZipPath Model.Zip Corr.K16"
+    # the member lists are compiled once and loaded by every shard
+    import common as _c
+    outdir = os.path.join(_c.BUILD, "C16", "shards")
+    os.makedirs(outdir, exist_ok=True)
+    with open(os.path.join(outdir, "k16pre.v"), "w") as fh:
+        fh.write("From PG Require Import Lib.Str Lib.ZipPath Model.Zip.\nLocal Open Scope N_scope.\n" + "\n".join(pre) + "\n")
+    rc, outp = _c.run(["timeout", "600", "coqc", "-Q", _c.COQ, "PG", "-w", "none", "k16pre.v"], cwd=outdir, timeout=700)
+    if rc != 0:
+        raise RuntimeError("cannot compile the member lists: " + outp[-2000:])
+    pre_txt = "Require Import k16pre."
     m1, e1, n1 = coq_eval("C16", "k_index", imports, "chk_index", idx_cases, shard=12, pre=pre_txt)
     m2, e2, n2 = coq_eval("C16", "k_vfs", imports, "chk_vfs", vfs_cases, shard=12, pre=pre_txt)
     m3, e3, n3 = coq_eval("C16", "k_tree", imports, "chk_tree", tree_cases, shard=80, pre=pre_txt)
@@ -342,7 +354,7 @@ REAL_ONLY = {"MBoxFolderHandler", "MBoxMessageHandler", "MaildirFolderHandler", 
 
 def mask(b, zipside):
     if zipside:
-        b = b.replace(b"XT.zip", b"XT")
+        b = b.replace(b"XT.zip", b"XT").replace(b"only_z", b"only_t")
     b = gen.mask_times(b)
     # a timestamp line may also be absent altogether: directories inside an archive carry no
     # time at all (stat gives 0), and Gopher+ omits Mod-Date for a zero time
@@ -398,8 +410,12 @@ def part_oracle(chk, tier):
              ("gophermap", "links", "symlinks", "prefixes", "zipnames")]
     protos = gen.PROTOCOLS
     jobs, meta = [], []
+    conts = G.containers(rng, ntrees)
     for i in range(ntrees):
-        tree = G.gen_tree(rng, feats[i % len(feats)])
+        big = ("bigfiles",) if i % 2 == 0 else ()
+        if tier == "thorough" and i % 8 == 0:
+            big += ("hugefiles",)
+        tree = G.gen_tree(rng, feats[i % len(feats)] + ("rootmeta",) + big)
         members = G.members_of(tree, rng, ["tree", "shuffle", "links_first"][i % 3])
         sels = G.tree_selectors(tree, rng, extra=4)
         sels = [p for p in sels if "//" not in p and not p.startswith("/")]
@@ -430,13 +446,23 @@ def part_oracle(chk, tier):
                     tacts.append({"do": "req", "data": gen.lat(d1), "tls": tls})
                     zacts.append({"do": "req", "data": gen.lat(d2), "tls": tls})
                     plan.append((p, proto, gp, len(zacts) - 1, gen.lat(d1), gen.lat(d2), tls))
+            # the entry OF the archive itself: asked for directly (getentry comes before prepare in every
+            # protocol), as the header of its own menu, and as one line of the menu of its parent
+            for label, tsel, zsel in (("<root>", TSEL, ZSEL), ("<parent>", "/only_t", "/only_z")):
+                for proto in protos:
+                    for gp in (("+", "!", "$") if proto in ("gopherplus", "sgopherplus") else ("+",)):
+                        d1, tls = gen.request_bytes(proto, tsel, gplus=gp)
+                        d2, _ = gen.request_bytes(proto, zsel, gplus=gp)
+                        tacts.append({"do": "req", "data": gen.lat(d1), "tls": tls})
+                        zacts.append({"do": "req", "data": gen.lat(d2), "tls": tls})
+                        plan.append((label, proto, gp, len(zacts) - 1, gen.lat(d1), gen.lat(d2), tls))
             plan2, tree2, members2 = [], None, None
             if hname == "zip-first":
                 # history in ONE server process: the site is updated (archive rewritten in place, tree
                 # re-extracted) between two rounds of browsing; the archive has to follow the tree
                 tree2 = G.mutate_tree(tree, rng)
                 members2 = G.members_of(tree2, rng, "tree")
-                rw = {"do": "rewrite", "tree": G.extracted_of(tree2), "members": members2}
+                rw = {"do": "rewrite", "tree": G.extracted_of(tree2), "members": members2, "container": conts[i]}
                 zacts.append(rw)
                 tacts.append(rw)
                 sels2 = [p for p in G.tree_selectors(tree2, rng, extra=2) if "//" not in p and not p.startswith("/")]
@@ -455,9 +481,10 @@ def part_oracle(chk, tier):
                         plan2.append((p, proto, gp, len(zacts) - 1, gen.lat(d1), gen.lat(d2), tls))
             common_kw = dict(extra_root=[{"path": "outside.txt", "data": "OUTSIDE\n"}],
                              cwd_files=[{"path": "mail.mbox", "data": G.MBOX.replace("one", "CWD-OUTSIDE")}])
+            common_kw.update(container=conts[i], infolist=False)
             jobs.append(job_for(tree, members, zacts, handlers=handlers, **common_kw))
             jobs.append(job_for(tree, members, tacts, handlers=without_real_only(handlers), **common_kw))
-            meta.append((tree, members, allsels, plan, hname, handlers, plan2, tree2, members2))
+            meta.append((tree, members, allsels, plan, hname, handlers, plan2, tree2, members2, conts[i]))
     # corpus: the D19 exhibit — a mailbox and a maildir at the top of an archive, a mailbox of the same
     # name in the server's working directory (outside the document root)
     ex_tree = [{"path": "a.txt", "kind": "file", "data": "alpha\n"},
@@ -494,7 +521,7 @@ def part_oracle(chk, tier):
                        "selectors": ex_reqs, "created": ex["cwd_created"], "members": G.members_of(ex_tree),
                        "config": config_for(ZIP_FIRST)}, tag="D19-writes-in-server-cwd")
     nreq = ndiff = nreal = nhist = 0
-    for k, (tree, members, allsels, plan, hname, handlers, plan2, tree2, members2) in enumerate(meta):
+    for k, (tree, members, allsels, plan, hname, handlers, plan2, tree2, members2, cont) in enumerate(meta):
         rz_job, rt_job = res[2 * k], res[2 * k + 1]
         for r in (rz_job, rt_job):
             if not r["ok"]:
@@ -552,7 +579,7 @@ def part_oracle(chk, tier):
                                "response_tree": a.decode("latin-1")[:1500], "response_zip": b.decode("latin-1")[:1500],
                                "exception_zip": rz.get("exc"), "log_zip": rz.get("log"),
                                "tree": tree, "members": members, "pruned_links": zout["pruned"],
-                               "config": config_for(handlers),
+                               "config": config_for(handlers), "container": cont,
                                **({"history": "step 2: after the archive was rewritten in place and the tree re-extracted, "
                                               "same server process",
                                    "tree_after_update": tree2, "members_after_update": members2} if step == 2 else {})},
@@ -579,6 +606,10 @@ def part_oracle(chk, tier):
 
 def classify_request_diff(tree, p, d19_paths):
     """stable tag for a response difference: by what the member path runs through"""
+    if p == "<parent>":
+        return "zip-archive-entry-in-parent-differs"
+    if p == "<root>":
+        return "zip-archive-root-entry-differs"
     base = p.split("|")[0].split("?")[0]
     if p in d19_paths or base in d19_paths:
         return "D19-archive-answer-differs"
@@ -681,13 +712,15 @@ def replay(path):
         acts_z = [{"do": "req", "data": r["request_zip_latin1"], "tls": r["tls"]}]
         acts_t = [{"do": "req", "data": r["request_tree_latin1"], "tls": r["tls"]}]
         if "history" in r:                                 # browse, update the site in place, browse again
-            rw = {"do": "rewrite", "tree": G.extracted_of(r["tree_after_update"]), "members": r["members_after_update"]}
+            rw = {"do": "rewrite", "tree": G.extracted_of(r["tree_after_update"]), "members": r["members_after_update"],
+                  "container": r.get("container")}
             root_z, _ = gen.request_bytes("gopher", ZSEL)
             acts_z = [{"do": "req", "data": gen.lat(root_z), "tls": False}] + acts_z + [rw] + acts_z
             acts_t = [{"do": "req", "data": r["request_tree_latin1"], "tls": r["tls"]}] + acts_t + [rw] + acts_t
-        jz = job_for(tree, members, acts_z, handlers=handlers, extra_root=[{"path": "outside.txt", "data": "OUTSIDE\n"}])
+        jz = job_for(tree, members, acts_z, handlers=handlers, extra_root=[{"path": "outside.txt", "data": "OUTSIDE\n"}],
+                     container=r.get("container"), infolist=False)
         jt = job_for(tree, members, acts_t, handlers=without_real_only(handlers),
-                     extra_root=[{"path": "outside.txt", "data": "OUTSIDE\n"}])
+                     extra_root=[{"path": "outside.txt", "data": "OUTSIDE\n"}], container=r.get("container"), infolist=False)
         rz, rt = impl_run([jz, jt])
         for x in (rz, rt):
             if not x["ok"]:
